@@ -110,7 +110,7 @@ func (w *World) propertyNotes(prop string) []string {
 }
 
 var undecidedClauses = map[string][]string{
-	"C01": {"real interleavings of the reader and writer goroutines (only per-call contracts and footprints are proved)", "end-to-end induction over frames (decode_encode / decode_split lemmas) is argued from the per-call contracts, not discharged as a separate lemma", "IAT sleeps; behaviour of the underlying net.Conn beyond its spec"},
+	"C01": {"real interleavings of the reader and writer goroutines: decided only up to footprints - the structural obligation struct.reader_writer_footprints_disjoint proves that Read-side and Write-side code touch disjoint fields of the connection except constructor-set pointers; the objects behind those pointers (net.Conn, WeightedDist with its mutex) are trusted to synchronise themselves", "end-to-end induction over frames (decode_encode / decode_split lemmas) is argued from the per-call contracts, not discharged as a separate lemma", "IAT sleeps; behaviour of the underlying net.Conn beyond its spec"},
 	"C02": {"cryptographic unforgeability of HMAC and ntor AUTH (assumption)", "many clients handshaking concurrently (sharing only the replay filter, C11)"},
 	"C03": {"wall-clock behaviour of deadlines in the kernel (modelled, not measured)", "indistinguishability of failure classes beyond the single closeAfterDelay funnel"},
 	"C04": {"HMAC collision freedom", "concurrent submissions (reduced to the filter's mutex, C11)"},
@@ -125,7 +125,7 @@ var undecidedClauses = map[string][]string{
 	"C13": {"interoperation with an actual independent obfs3 implementation (the specification is encoded in the postconditions)", "number theory behind the two MODEXP axioms and that modpStr is the 1536-bit RFC 3526 prime", "Dial/WrapConn callers"},
 	"C14": {"interoperation with an actual independent implementation (the specification is encoded in the postconditions instead)", "AES-CTR/SHA-256 themselves (uninterpreted)", "Dial/WrapConn callers and the precondition that the wrapped conn is not itself an obfs2Conn"},
 	"C15": {"behaviour against an actual conforming server (none in the tree)", "end-to-end stream equality across both peers (the contracts decide each side: packet layout as an independent reader decrypts it, only MAC-verified payload surfaces, in order, buffered payload first)", "handshake message generation (ssDHClientHandshake/ssTicketClientHandshake.generateHandshake), ticket serialisation and storeTicket are assumed contracts", "the two-packet padding case reproduces the reference implementation's off-by-one-header (tail = sample - 21): stated as such, not judged"},
-	"C16": {"the HTTP layer: that every request of a connection carries the same X-Session-Id, and the retry loop of roundTrip (net/http is not modelled; roundTrip is an assumed contract)", "that polling stops after Close (the worker's select observes the close channel; liveness is not decided)", "interleavings of Read/Write callers with the worker goroutine beyond the channel FIFO abstraction", "enqueueWrite's recover() of a send on the closed queue"},
+	"C16": {"the network side of a round trip (status codes, bodies and errors are unconstrained; net/http enters through thin shape/freshness specs)", "that polling stops after Close (the worker's select observes the close channel; liveness is not decided)", "interleavings of Read/Write callers with the worker goroutine beyond the channel FIFO abstraction", "enqueueWrite's recover() of a send on the closed queue"},
 	"C17": {"round trip of the argument parser with an encoder (none is part of /repo): the parser is proved to be exactly the specified byte-level state machine, but parse(encode(x)) = x needs induction over strings", "the map produced by Args.Add is represented by the ordered log of (key, value) pairs added to it", "Handshake returns success even if disarming the deadline failed (the deferred closure assigns a local that was already returned) - observation, not part of C17"},
 	"C18": {"durability beyond a process kill (fsync, directory entries, power loss)", "json.Unmarshal leaving absent fields untouched (modelled as overwriting all five fields)", "concurrent starts on one state directory", "crash during ssTicketStore.serialize is harmless only because loadTicketStore tolerates any content (proved); the serialize body (map iteration) is not under contract"},
 	"C19": {"relay prefix / drain-before-close under racing io.Copy goroutines"},
